@@ -17,7 +17,7 @@ def fpairs : P (List (Float × Float)) := list (do let a ← float; let b ← fl
 
 def varOf : Nat → Var
   | 0 => .edgeNode | 1 => .faceEdge | 2 => .nPerFace | 3 => .nodeFace | 4 => .edgeFace
-  | 5 => .faceFace | 6 => .holes | _ => .edgeFaceDist
+  | 5 => .faceFace | 6 => .holes | 7 => .edgeFaceDist | _ => .chunk
 
 def encView (v : View) : String :=
   s!"ok {encPairs v.en} {encRows v.fe} {encNats v.npf} {encRows v.nf} {encPairs v.ef} {encRows v.ff} {encNats v.holes}"
